@@ -30,7 +30,7 @@ LD = np.longdouble
 def cases(seed, tier):
     n = 420 if tier == "quick" else 6000
     rng = np.random.default_rng([seed, 13])
-    fams = ["ids", "cover", "bincount", "cover", "bincount", "bincount-edges"]
+    fams = ["ids", "cover", "bincount", "cover", "bincount", "bincount-edges", "tangent"]
     for i in range(n):
         yield {"family": fams[i % len(fams)], "sub": int(rng.integers(0, 2**31))}
 
@@ -108,6 +108,7 @@ def on_bincount(call):
 
 
 def install():
+    probe.enable_recall("C13.recall", every=5)
     probe.instrument("esutil.htm.htm:HTM.lookup_id", [])
     probe.instrument("esutil.htm.htm:HTM.intersect", [])
     probe.instrument("esutil.htm.htm:HTM.bincount", [on_bincount])
@@ -246,6 +247,67 @@ def run_cover(case, rng):
         COL.info["cover_partial_triangles_seen"] = COL.info.get("cover_partial_triangles_seen", 0) + int(inc.size - exc.size)
 
 
+def run_tangent(case, rng):
+    """Circles whose rim passes just inside / just outside a corner of a triangle: the two places where the lists can
+    go wrong by less than any random position would show.  A position q is placed inside triangle T next to one of
+    its corners (T = the library's own lookup_id(q), re-asked; a q that lands elsewhere is dropped) and the radius is
+    its distance from the centre minus / plus a margin between 1e-8 and 5e-6 degrees."""
+    from esutil import htm
+    kind = ["any", "northpole", "southpole", "seam", "octant", "any"][int(rng.integers(0, 6))]
+    ra0, dec0 = H.centre(rng, kind)
+    r0 = float(10 ** rng.uniform(-2, np.log10(80)))
+    depth = int(rng.integers(1, min(H.max_depth(r0 * 1.05), 12) + 1))
+    h = htm.HTM(depth)
+    wit = {"ra": ra0, "dec": dec0, "radius0": r0, "depth": depth, "centre": kind}
+    inc0, e = probe.attempt(h.intersect, ra0, dec0, r0)
+    if e is not None:
+        COL.violation("C13.cover", "intersect raised %r" % e, wit)
+        return
+    inc0 = np.asarray(inc0)
+    cvec = S.unit([ra0], [dec0])
+    for tid in rng.choice(inc0, size=min(6, inc0.size), replace=False):
+        corners = H.triangle_corners(tid, depth)
+        cen = corners.sum(axis=0)
+        cen = cen / np.sqrt((cen * cen).sum())
+        dc = np.array([float(S.sep_vec(cvec, c[:, None])[0]) for c in corners])
+        for which in ("far", "near"):
+            k = int(np.argmax(dc) if which == "far" else np.argmin(dc))
+            margin = float(10 ** rng.uniform(-8, -5.3))
+            # q: a tenth of the margin inside the triangle from the corner, towards the centroid
+            side = float(S.sep_vec(corners[k][:, None], cen[:, None])[0])
+            t = LD(margin / 10) / LD(max(side, 1e-12))
+            q = corners[k] * (1 - t) + cen * t
+            q = q / np.sqrt((q * q).sum())
+            lon, lat = S.lonlat(q[:, None])
+            qra, qdec = float(lon[0]) % 360.0, float(np.clip(lat[0], -90, 90))
+            if int(h.lookup_id(qra, qdec)[0]) != int(tid):
+                COL.skipped("C13.cover", "tangent/position-not-in-intended-triangle")
+                continue
+            dq = float(H.sep_matrix([ra0], [dec0], [qra], [qdec])[0, 0])
+            if which == "far":
+                r = dq - margin          # q is outside the circle by `margin`: its triangle is not fully inside
+                if not (1e-3 < r < 90):
+                    continue
+                lst, e = probe.attempt(h.intersect, ra0, dec0, r, inclusive=False)
+                bad = e is None and int(tid) in set(np.asarray(lst).tolist())
+                what = "position (%.12g, %.12g) at %.12g deg is outside the circle of %.12g deg (by %.3g) but lies in triangle %d reported as " \
+                       "fully inside" % (qra, qdec, dq, r, margin, tid)
+            else:
+                r = dq + margin          # q is inside the circle by `margin`: its triangle must be listed
+                if not (1e-3 < r < 90):
+                    continue
+                lst, e = probe.attempt(h.intersect, ra0, dec0, r)
+                bad = e is None and int(tid) not in set(np.asarray(lst).tolist())
+                what = "position (%.12g, %.12g) at %.12g deg is inside the circle of %.12g deg (by %.3g) but its triangle %d is not in " \
+                       "the inclusive list" % (qra, qdec, dq, r, margin, tid)
+            if e is not None:
+                COL.violation("C13.cover", "intersect raised %r" % e, dict(wit, radius=r))
+            elif bad:
+                COL.violation("C13.cover", what, dict(wit, radius=r, tangent=which))
+            else:
+                COL.ok("C13.cover", ("tangent", which, depth, int(np.floor(np.log10(r))), kind))
+
+
 def run_bincount(case, rng, edges=False):
     from esutil import htm, stat
     n1 = int(rng.choice([1, 3, 20, 80, 150]))
@@ -344,5 +406,7 @@ def run_case(case):
         run_ids(case, rng)
     elif fam == "cover":
         run_cover(case, rng)
+    elif fam == "tangent":
+        run_tangent(case, rng)
     else:
         run_bincount(case, rng, edges=(fam == "bincount-edges"))
